@@ -119,6 +119,7 @@ def run(ctx):
         hist = rng.sample(ok_cases, 3)
         mode = rng.choice(('exact', 'larger', 'much-larger', 'shared-largest'))
         buf = None
+        kept = []
         for j, c in enumerate(hist):
             g = geoms[c['gi']]
             adv = lentil.scratch_shape(float(g['lam']), (float(g['dx'][0]), float(g['dx'][1])),
@@ -140,7 +141,15 @@ def run(ctx):
                     big = max(max(geoms[x['gi']]['Kr'], geoms[x['gi']]['Kc']) for x in hist)
                     buf = (garbage.normal(size=(big, big)) + 3j).astype(complex)
                 m = 'reused-across-calls'
-            run_one(c, m, buf)
+            real = run_one(c, m, buf)
+            if real[-1].get('_wavefront') is not None:
+                kept.append((c, real[-1]['_wavefront']))
+        # results returned earlier must still be what they were after the buffer has been used again
+        for c, w in kept[:-1]:
+            again = [{'err': 'none'}] * (len(c['steps']) - 1) + [ox.observe_real(w)]
+            sp_obs = [dict(o, field=[]) for o in spec[c['id']]['obs'][:-1]] + [spec[c['id']]['obs'][-1]]
+            for (k, kind, detail) in ox.compare(c, sp_obs, again, check_meta=False):
+                ctx.violation(sig_of(c, 'earlier-result-changed-by-later-call', mode), dict(detail, K=c['K']), case={'case': c, 'spec': spec[c['id']], 'mode': mode})
         nhist += 1
     # 3. where lambda' = lambda (exact integer 1/alpha): propagate_fft against propagate_dft of the same real wavefront
     ncmp = 0
@@ -158,6 +167,7 @@ def run(ctx):
             if a.shape != b.shape or not np.abs(a - b).max() <= 1e-9 * (1 + np.abs(b).sum()):
                 ctx.violation(sig_of(c, 'fft-vs-dft', 'none'), {'K': c['K'], 'pupil': c['pupil'], 'fft': a, 'dft': b},
                               case={'case': c, 'spec': spec[c['id']], 'mode': 'none'})
+    ox.binding_selftest(ctx, lentil, cases[0], spec[cases[0]['id']])
     ctx.traces += len(cases) + 3 * nhist
     ctx.extra.update({'geometries': len(geoms), 'scratch_histories': nhist, 'fft_vs_dft_real_comparisons': ncmp,
                       'refused_shape_cases': sum(1 for c in cases if spec[c['id']]['obs'][-1]['err'] == 'ValueError'),
